@@ -237,6 +237,40 @@ func main() {
 			checkPhrase(bad, "malformed")
 		}
 	}
+	// family 4b: a non-word at every position, in phrases that are valid when that position holds word 0
+	// (index 0 is what a failed map lookup yields), word 2047 and a middle word
+	for _, target := range []int{0, 2047, 1024} {
+		for pos := 0; pos < 12; pos++ {
+			ws := make([]string, 12)
+			for i := range ws {
+				ws[i] = words[(i*173+pos*31+7)%2048]
+			}
+			ws[pos] = words[target]
+			vary := 11
+			if pos == 11 {
+				vary = 10
+			}
+			found := false
+			for k := 0; k < 2048 && !found; k++ {
+				ws[vary] = words[k]
+				if _, ok := refDecode(ws); ok {
+					found = true
+				}
+			}
+			if !found {
+				ev.HarnessError("c20: no valid phrase with word %d at position %d", target, pos)
+			}
+			checkPhrase(strings.Join(ws, " "), "nonword-base")
+			for _, junk := range []string{"zzzzzz", strings.ToUpper(words[target][:1]) + words[target][1:], words[target][:len(words[target])-1], words[target] + "x", "0", "\u00e9"} {
+				if _, isWord := index[junk]; isWord {
+					continue
+				}
+				bad := append([]string(nil), ws...)
+				bad[pos] = junk
+				checkPhrase(strings.Join(bad, " "), "nonword")
+			}
+		}
+	}
 	// family 5: keys — independent derivation, determinism, distinctness across indices
 	for _, b := range bases {
 		var seed [32]byte
